@@ -18,7 +18,11 @@ pub fn constructor_order_qa(source_unit: SourceUnit) -> HashSet<Loc> {
 
     //For each target node that was extracted, check for the qa patterns
     for _node in target_nodes {
-        let contract_part = _node.contract_part().unwrap();
+        //a free function is a file-level item, not a contract part: it cannot precede a constructor
+        let contract_part = match _node.contract_part() {
+            Some(contract_part) => contract_part,
+            None => continue,
+        };
 
         if let pt::ContractPart::FunctionDefinition(box_fn_definition) = contract_part {
             match box_fn_definition.ty {
